@@ -20,3 +20,33 @@ package diff
 //@   loop 4 invariant 0 <= iter && 0 <= start && start <= j && j < n && n == len(tblIdx2) && end == -1 && off1 < len(tblIdx1) - 1
 //@   loop 4 decreases len(tblIdx1[off1+1]) - iter
 //@   replay findOverlappingBlocks($tblIdx1, $tblIdx2, $off1, $prevEnd)
+
+// The merged ("union") column layout: position i of a rearranged row holds the cell of the column ColDiff.Names[i];
+// BaseIdx / OtherIdx[layer] map a union position to the position of that column in the base / layer table.
+//@ func (*ColDiff).Len
+//@   props C05
+//@   requires c != nil
+//@   modifies nothing
+//@   ensures result == len(c.Names) && result >= 0
+
+//@ func (*ColDiff).RearrangeBaseRow
+//@   props C05
+//@   requires c != nil && len(c.Names) <= 2147483648 && forall(k, member(c.BaseIdx, k) ==> c.BaseIdx[k] < len(row))
+//@   modifies nothing
+//@   ensures [C05] len(result) == len(c.Names) && fresh(result)
+//@   ensures [C05] forall(k, 0, len(c.Names), (member(c.BaseIdx, k) ==> result[k] == row[c.BaseIdx[k]]) && (!member(c.BaseIdx, k) ==> result[k] == ""))
+//@   loop 1 invariant 0 <= i && i <= n && n == len(c.Names) && len(res) == n && fresh(res)
+//@   loop 1 invariant forall(k, 0, i, (member(c.BaseIdx, k) ==> res[k] == row[c.BaseIdx[k]]) && (!member(c.BaseIdx, k) ==> res[k] == ""))
+//@   loop 1 invariant forall(k, i, n, res[k] == "")
+//@   loop 1 decreases n - i
+
+//@ func (*ColDiff).RearrangeRow
+//@   props C05
+//@   requires c != nil && len(c.Names) <= 2147483648 && 0 <= layer && layer < len(c.OtherIdx) && forall(k, member(c.OtherIdx[layer], k) ==> c.OtherIdx[layer][k] < len(row))
+//@   modifies nothing
+//@   ensures [C05] len(result) == len(c.Names) && fresh(result)
+//@   ensures [C05] forall(k, 0, len(c.Names), (member(c.OtherIdx[layer], k) ==> result[k] == row[c.OtherIdx[layer][k]]) && (!member(c.OtherIdx[layer], k) ==> result[k] == ""))
+//@   loop 1 invariant 0 <= i && i <= n && n == len(c.Names) && len(res) == n && fresh(res)
+//@   loop 1 invariant forall(k, 0, i, (member(c.OtherIdx[layer], k) ==> res[k] == row[c.OtherIdx[layer][k]]) && (!member(c.OtherIdx[layer], k) ==> res[k] == ""))
+//@   loop 1 invariant forall(k, i, n, res[k] == "")
+//@   loop 1 decreases n - i
